@@ -109,10 +109,35 @@ Proof.
   - left. exists i. split; [reflexivity|]. split; [exact Ev|]. intro K. contradiction.
 Qed.
 
-Lemma MInv_set_computed : forall Ex X Y inp s n e l v fr bp rc,
+Lemma set_computed_world : forall s n v fr bp rc, s_world (set_computed s n v fr bp rc) = s_world s.
+Proof.
+  intros. unfold set_computed.
+  match goal with |- s_world (if ?b then set_ext ?x ?y else ?x) = _ =>
+    assert (E : s_world (if b then set_ext x y else x) = s_world x) by (destruct b; reflexivity); rewrite E; clear E end.
+  rewrite (sg_world _ _ (wire_sbg _ _ _)). unfold put_info. cbn [set_nodes s_world].
+  destruct (get_info s n); [apply (sg_world _ _ (unwire_sbg _ _ _ _))|reflexivity].
+Qed.
+Lemma set_computed_ext_In : forall s n v fr bp rc e,
+  In e (s_ext (set_computed s n v fr bp rc)) -> In e (s_ext s) \/ (e = n /\ nkind n = KExternal).
+Proof.
+  intros s n v fr bp rc e. unfold set_computed.
+  assert (Hx : forall s1, s_ext (wire (put_info (match get_info s n with Some i => unwire s n (i_fwd i) rc | None => s end) n s1) n (fr_order fr)) = s_ext s).
+  { intro s1. rewrite (sg_ext _ _ (wire_sbg _ _ _)). unfold put_info. cbn [set_nodes s_ext].
+    destruct (get_info s n); [apply (sg_ext _ _ (unwire_sbg _ _ _ _))|reflexivity]. }
+  destruct (kind_eqb (nkind n) KExternal) eqn:K.
+  - cbn [set_ext s_ext]. rewrite Hx. intro H. apply nadd_In in H. destruct H as [->|H]; [right; split; [reflexivity|apply kind_eqb_eq; exact K]|left; exact H].
+  - rewrite Hx. auto.
+Qed.
+
+(** what is stored for [n]: an external input (the world's answer) or an executed body *)
+Definition NewKind (inp : menv) (n : node) (v : Z) (fr : frame) : Prop :=
+  (nkind n = KExternal /\ fr_order fr = [] /\ fr_callees fr = [] /\ fr_tfc fr = [] /\ snd inp (nidx n) = Some v) \/
+  (is_mexec_kind (nkind n) = true /\ exists e l, alookup p n = Some e /\
+     evr (frR fr) e v l /\ (forall d, In d (map fst (fr_callees fr)) <-> In d l)).
+
+Lemma MInv_set_computed : forall Ex X Y inp s n v fr bp rc,
   MInvE p rk s0 Ex X inp s -> (forall x, Ex x -> x = n) ->
-  is_mexec_kind (nkind n) = true -> alookup p n = Some e ->
-  evr (frR fr) e v l -> (forall d, In d (map fst (fr_callees fr)) <-> In d l) ->
+  NewKind inp n v fr ->
   MFrOk s n fr -> ~ sverified s n -> In n (s_log s) ->
   ((rc = true /\ get_info s n <> None) \/ (rc = false /\ get_info s n = None)) ->
   (get_info s n <> None -> MSolid s n -> Unch s n v (fr_tfc fr)) ->
@@ -124,7 +149,7 @@ Lemma MInv_set_computed : forall Ex X Y inp s n e l v fr bp rc,
   MInv p rk s0 (X ++ Y) inp (set_computed s n v fr bp rc) /\
   (~ MSolid s n \/ get_info s n = None -> MKeeps s (set_computed s n v fr bp rc)).
 Proof.
-  intros Ex X Y inp s n e l v fr bp rc HI HEx Hk He Hev Hkl Hfr Hnv Hlogn Hrc Hsame Hdirt HY.
+  intros Ex X Y inp s n v fr bp rc HI HEx Hnk Hfr Hnv Hlogn Hrc Hsame Hdirt HY.
   set (s' := set_computed s n v fr bp rc).
   set (keys := map fst (fr_callees fr)) in *.
   set (ni := sc_info s n v fr bp).
@@ -143,9 +168,10 @@ Proof.
   assert (Hcal : forall x y, In x (callers_of s' y) <->
             (In x (callers_of s y) /\ ~ (x = n /\ In y (old_fwd s n))) \/ (x = n /\ In y keys)).
   { intros x y. unfold s'. rewrite set_computed_callers, Hcs. reflexivity. }
-  assert (Hkeys : forall d, In d keys -> In d (expr_reads e)).
-  { intros d Hd0. eapply evr_reads; eauto. apply Hkl. exact Hd0. }
-  assert (Hkrk : forall d, In d keys -> (rk d < rk n)%nat) by (intros d Hd0; eapply Hrk; eauto).
+  assert (Hkrk : forall d, In d keys -> (rk d < rk n)%nat).
+  { intros d Hd0. destruct Hnk as [(_ & _ & Kc & _)|(_ & e & l & He & Hev & Hkl)].
+    - unfold keys in Hd0. rewrite Kc in Hd0. destruct Hd0.
+    - eapply Hrk; eauto. eapply evr_reads; eauto. apply Hkl. exact Hd0. }
   assert (Hself : ~ In n keys) by (intro K; apply Hkrk in K; lia).
   assert (Hnd : forall b, ~ sdirty s' n b).
   { intros b K. apply Hd in K. destruct K as [K1 K2]. pose proof (mi_dirty_edge _ _ _ _ _ _ _ HI _ _ K1) as Hb.
@@ -237,10 +263,14 @@ Proof.
   { split.
   - (* mi_kind *)
     intros m i Hi. rewrite Hget in Hi. destruct (node_eqb_spec n m) as [<-|Hne].
-    + inversion Hi. subst i. right. split; [exact Hk|]. exists e, l. split; [exact He|]. split.
-      * eapply evr_mono; [exact Hev|]. intros d x _ [t Hx]. exists t. unfold ni, sc_info. cbn [i_obs].
-        rewrite (MFrOk_obs _ _ _ d Hfr), Hx. reflexivity.
-      * unfold ni, sc_info. cbn [i_fwd]. rewrite Hcs. exact Hkl.
+    + inversion Hi. subst i. destruct Hnk as [(Kx & Ko & Kc & Kt & Kv)|(Hk & e & l & He & Hev & Hkl)].
+      * left. split; [right; exact Kx|]. unfold ni, sc_info. cbn [i_fwd i_obs i_tfc i_value].
+        unfold fr_observations. rewrite Ko, Kc, Kt. cbn [flat_map]. repeat (split; [reflexivity|]).
+        unfold leaf_val. rewrite Kx. exact Kv.
+      * right. split; [exact Hk|]. exists e, l. split; [exact He|]. split.
+        -- eapply evr_mono; [exact Hev|]. intros d x _ [t Hx]. exists t. unfold ni, sc_info. cbn [i_obs].
+           rewrite (MFrOk_obs _ _ _ d Hfr), Hx. reflexivity.
+        -- unfold ni, sc_info. cbn [i_fwd]. rewrite Hcs. exact Hkl.
     + eapply mi_kind; eauto.
   - (* mi_obs *)
     intros m i d Hi Hdm. rewrite Hget in Hi. destruct (node_eqb_spec n m) as [<-|Hne].
@@ -333,7 +363,9 @@ Proof.
     + eapply HTn; eauto.
   - (* mi_V *)
     intros m i Hi Hv. rewrite Hget in Hi. destruct (node_eqb_spec n m) as [<-|Hne].
-    + inversion Hi. subst i. unfold ni, sc_info. cbn [i_value]. eapply MSpecI_exec; eauto.
+    + inversion Hi. subst i. unfold ni, sc_info. cbn [i_value].
+      destruct Hnk as [(Kx & _ & _ & _ & Kv)|(Hk & e & l & He & Hev & Hkl)]; [apply MSpecI_ext; assumption|].
+      eapply MSpecI_exec; eauto.
       eapply evr_msev; [exact Hev|]. intros d x _ Hx. apply HfrS. exact Hx.
     + eapply mi_V; eauto. congruence.
   - (* mi_PV *)
@@ -363,7 +395,13 @@ Proof.
     rewrite (Hgetne m Hne). destruct (mi_U _ _ _ _ _ _ _ HI m) as [K|K]; [left; apply Hver1; exact K|right; exact K].
   - (* mi_O *)
     intros m i Hi. unfold s'. rewrite set_computed_log. destruct (node_eq_dec m n) as [->|Hne]; [left; exact Hlogn|].
-    rewrite (Hgetne m Hne) in Hi. eapply mi_O; eauto. }
+    rewrite (Hgetne m Hne) in Hi. eapply mi_O; eauto.
+  - (* mi_W *)
+    intros k Hk0. unfold s' in *. unfold world_get. rewrite set_computed_world.
+    apply (mi_W _ _ _ _ _ _ _ HI). rewrite Hget in Hk0. destruct (node_eqb n (ext_node k)); [discriminate|exact Hk0].
+  - (* mi_ext *)
+    intros e He0. unfold s' in He0. apply set_computed_ext_In in He0. destruct He0 as [K|[-> K]]; [|exact K].
+    eapply mi_ext; eauto. }
   (* MKeeps *)
   intros Hns d i Hi HS. destruct (node_eq_dec d n) as [->|Hne]; [destruct Hns; [contradiction|congruence]|].
   exists i. split; [rewrite (Hgetne d Hne); exact Hi|repeat split].
